@@ -99,6 +99,7 @@ def C02(ctx):
     nt = lambda c: len(c['expect'][0]['funcs']) >= 2
     if ctx.quick:
         cases = ctx.sample(cases, 400, must=nt)
+    ctx.design_analyze(cases, limit=400, label='accepted programs of family G ')
     ctx.run(cases, nontrivial=nt, runtime=True, switches=W_ONLY)
     ctx.rules.append('accepted programs of families R (n<=3, all flavours), B (bindings), S (struct and field providers), M (nested sets over packages), T (variadic injector), '
                      'X (sets declared in one multi-name var spec, injectors returning an argument, several injectors in several files)')
@@ -109,6 +110,7 @@ def C02(ctx):
         more = ctx.sample(more, 500)
     more += ctx.export('FamilyX(p, {"multi-name-var-sets", "arg-returned-through-bind", "arg-returned-directly", "two-files-ok", "star-foreign-tag-ok", "two-unnamed-values"})')
     ctx.design_inject(cases + more, maxcalls=2, label='families G R B S M X ')
+    ctx.design_analyze(cases + more, limit=400 if ctx.quick else 2500, label='families G R B S M X ', free_roots=False)
     ctx.run(only_success(more), nontrivial=nt, runtime=True, switches=W_ONLY)
     if not ctx.quick:
         big = [c for c in ctx.export(G(4), pre_sample=30000) if verdict(c) == 'yes']
